@@ -461,6 +461,9 @@ pdgstrf_WorkInit(int_t n, int_t panel_size, int_t **iworkptr, double **dworkptr)
 	fprintf(stderr, "pdgstrf_WorkInit: malloc fails for local iworkptr[]\n");
 	return (isize + n);
     }
+#ifdef SLU_MT_VERIF
+    SLUV_YIELD(SLUV_Y_WORK_ALIGN);
+#endif
 
     if ( whichspace == SYSTEM )
 	*dworkptr = (double *) SUPERLU_MALLOC((size_t) dsize);
